@@ -3,6 +3,9 @@ package main
 // C06: proof-number solver verdicts agree with the game-theoretic truth.
 //
 // CASE pn;<enc position>;<maxnodes> <preserve> <maxdepth> | <verdict> <move> | <proof> <disproof> <depth> <nodes> <proved> <disproved> <dropped> <expanded> <maxdepth>
+// CASE pn;<enc position>;<maxnodes> <preserve> <maxdepth> pn2 | <verdict> <move> | <the same nine numbers> <pn2 calls> <nodes searched by them> <sum of their limits>
+//   (PN-squared runs are made with Config.Debug = 3: pn2() then logs one line per second-level search, which is where the
+//    last three numbers come from; the model cost of such a run is bounded by first-level expansions AND second-level nodes)
 // CASE dfpn;<enc position>;<table entries> <attacker N|W|B> | <verdict> <move> | <phi> <delta> <work> <repetition> <terminal> <solved> <hits> <miss>
 //
 // Oracle (oracle_retro.go): exact retrograde solution of the whole reachable game graph for
@@ -17,7 +20,6 @@ import (
 	"encoding/json"
 	"encoding/xml"
 	"fmt"
-	"io"
 	"log"
 	"math/rand"
 	"os"
@@ -57,6 +59,7 @@ type c06job struct {
 	bigModel bool // follow-up run on a root where repetition was seen: larger model budget
 	rep      int  // DFPN: threefold repetitions met by this run
 	work     uint64
+	pn2calls, pn2searched uint64 // PN-squared: second-level searches of this run and the nodes they created
 	crossPN  bool // also ask the PN solver (which has no immediate-threat shortcut): the two verdicts may not contradict
 	modelOK  bool // eligible for the model comparison (cost permitting)
 
@@ -105,7 +108,78 @@ func (j *c06job) input() string {
 const (
 	c06MaxModelExpanded = 400
 	c06MaxModelWork     = 60
+	c06MaxModelSearched = 100000 // PN-squared: nodes created by all second-level searches of one run
 )
+
+// ---------- PN-squared: what the second level did, read from the log lines of pn2() (Config.Debug > 2) ----------
+//
+//	[pn2] depth=%d(%d) val=%s limit=%d searched=%d pn=(%d,%d)
+//
+// The log package is global: PN-squared runs hold c06pn2Mu, so the lines between reset and take belong to one run (other
+// solvers running at the same time only log progress lines, which are ignored).
+type c06pn2Log struct {
+	mu                      sync.Mutex
+	calls, searched, limits uint64
+	maxSearched             uint64
+	unlimited               uint64 // second-level searches without a node limit (limit = 0)
+}
+
+var (
+	c06log   c06pn2Log
+	c06pn2Mu sync.Mutex
+)
+
+func (w *c06pn2Log) Write(b []byte) (int, error) {
+	i := bytes.Index(b, []byte("[pn2] depth="))
+	if i < 0 {
+		return len(b), nil
+	}
+	if os.Getenv("C06_PN2LOG") != "" { // debugging: show what every second-level search did
+		os.Stderr.Write(b[i:])
+	}
+	var d1, d2 int
+	var val string
+	var lim, searched uint64
+	var phi, delta uint32
+	n, _ := fmt.Sscanf(string(b[i:]), "[pn2] depth=%d(%d) val=%s limit=%d searched=%d pn=(%d,%d)", &d1, &d2, &val, &lim, &searched, &phi, &delta)
+	w.mu.Lock()
+	defer w.mu.Unlock()
+	if n < 5 {
+		w.calls = 1 << 62 // unreadable line: make the comparison fail loudly
+		return len(b), nil
+	}
+	w.calls++
+	w.searched += searched
+	w.limits += lim
+	if searched > w.maxSearched {
+		w.maxSearched = searched
+	}
+	if lim == 0 {
+		w.unlimited++
+	}
+	return len(b), nil
+}
+
+// c06pn2Screen: does a PN-squared run with this configuration reach the second level, and at what cost?
+func c06pn2Screen(j *c06job) (calls, searched, expanded uint64) {
+	c06pn2Mu.Lock()
+	defer c06pn2Mu.Unlock()
+	c06log.reset()
+	safely(func() {
+		pr := prove.New(prove.Config{MaxNodes: j.maxNodes, PreserveSolved: j.preserve, PN2: true, MaxDepth: j.maxDepth, Debug: 3})
+		_, st := pr.Prove(context.Background(), j.root)
+		expanded = st.Expanded
+	})
+	c06log.mu.Lock()
+	defer c06log.mu.Unlock()
+	return c06log.calls, c06log.searched, expanded
+}
+
+func (w *c06pn2Log) reset() {
+	w.mu.Lock()
+	w.calls, w.searched, w.limits, w.maxSearched, w.unlimited = 0, 0, 0, 0, 0
+	w.mu.Unlock()
+}
 
 // runSeq: one DFPN solver used for several positions in a row (mixed sides to move, mixed board sizes).  Every
 // verdict is judged like that of a fresh solver; a failure that a fresh solver does not show on the same position
@@ -194,13 +268,38 @@ func (j *c06job) run() {
 	costOK := false
 	panicked, msg := safely(func() {
 		if j.kind == "pn" {
-			pr := prove.New(prove.Config{MaxNodes: j.maxNodes, PreserveSolved: j.preserve, PN2: j.pn2, MaxDepth: j.maxDepth})
+			pcfg := prove.Config{MaxNodes: j.maxNodes, PreserveSolved: j.preserve, PN2: j.pn2, MaxDepth: j.maxDepth}
+			traced := j.pn2 && j.modelOK // the other PN-squared runs are not traced (the trace needs the runs one at a time)
+			if traced {
+				pcfg.Debug = 3
+				c06pn2Mu.Lock()
+				defer c06pn2Mu.Unlock()
+				c06log.reset()
+			}
+			pr := prove.New(pcfg)
 			r, st := pr.Prove(context.Background(), j.root)
 			res = r
 			attacker = j.root.ToMove()
 			l2 = fmt.Sprintf("%d %d %d %d %d %d %d %d %d", r.Proof, r.Disproof, r.Depth, st.Nodes, st.Proved, st.Disproved, st.Dropped, st.Expanded, st.MaxDepth)
 			costOK = st.Expanded <= c06MaxModelExpanded || (j.bigModel && st.Expanded <= 20*c06MaxModelExpanded)
 			j.stats["pn_expanded_total"] += int64(st.Expanded)
+			if j.pn2 && !traced {
+				costOK = false
+			}
+			if traced {
+				c06log.mu.Lock()
+				j.pn2calls, j.pn2searched = c06log.calls, c06log.searched
+				l2 += fmt.Sprintf(" %d %d %d", c06log.calls, c06log.searched, c06log.limits)
+				if c06log.calls > 0 {
+					j.stats["pn2_traced_runs_entering_second_level"]++
+					j.stats["pn2_traced_second_level_searches"] += int64(c06log.calls)
+					j.stats["pn2_traced_second_level_searches_without_limit"] += int64(c06log.unlimited)
+					j.stats["pn2_traced_second_level_nodes"] += int64(c06log.searched)
+				}
+				// the first-level expansions of a PN-squared run are cheap for the model next to its second-level searches
+				costOK = st.Expanded <= 10*c06MaxModelExpanded && c06log.searched <= c06MaxModelSearched
+				c06log.mu.Unlock()
+			}
 		} else {
 			d := prove.NewDFPN(&prove.DFPNConfig{Attacker: j.attacker, TableMem: int64(j.entries) * c06EntrySize})
 			r, st := d.Prove(j.root)
@@ -235,6 +334,15 @@ func (j *c06job) run() {
 	j.l1, j.l2 = l1, l2
 	if j.modelOK && costOK {
 		j.out = append(j.out, fmt.Sprintf("CASE %s | %s | %s", in, l1, l2))
+		if j.pn2 {
+			j.stats["pn2_model_cases"]++
+			if j.pn2calls > 0 {
+				j.stats["pn2_model_cases_entering_second_level"]++
+				j.stats["pn2_model_cases_second_level_searches"] += int64(j.pn2calls)
+				j.stats["pn2_model_cases_second_level_nodes"] += int64(j.pn2searched)
+				j.stats["pn2_model_cases_entering_second_level_"+v]++
+			}
+		}
 	} else {
 		j.stats["oracle_only_runs"]++
 	}
@@ -421,7 +529,6 @@ func (c *ctx) c06pnJob(root *tak.Position, g *retroGraph) *c06job {
 	}
 	if r.Intn(4) == 0 {
 		j.pn2 = true
-		j.modelOK = false
 	}
 	return j
 }
@@ -440,7 +547,8 @@ func (c *ctx) c06dfpnJob(root *tak.Position, g *retroGraph) *c06job {
 }
 
 func runC06(c *ctx) {
-	log.SetOutput(io.Discard) // the PN search logs progress lines
+	log.SetOutput(&c06log) // the PN search logs progress lines (dropped) and, with Debug > 2, one line per pn2 call (counted)
+	log.SetFlags(0)
 	switch c.tier {
 	case "probe":
 		c06probe(c)
@@ -1105,6 +1213,107 @@ func runC06(c *ctx) {
 	c.stat("pn_roots_with_repetition_leaves", int64(pnRoots))
 	c.stat("followup_runs_on_repetition_roots", int64(len(again)))
 	c06runJobs(c, again)
+
+	// PN-squared where the second level really starts: the first-level counter Stats.Nodes must exceed pn2Threshold = 1000,
+	// which the searches from the roots above rarely do (they are solved earlier).  Roots within the first plies of the
+	// 3x3 games (exactly solved graphs), node limits that give every kind of second-level limit: none at the first level
+	// (limit = Live), small (limit close to Live), large (limit = Live^2/MaxNodes small or 0 = unlimited second level).
+	var second []*c06job
+	tScreen := time.Now()
+	for i, s := range specs {
+		if s.cfg.Size != 3 {
+			continue
+		}
+		// candidates are screened by a run of the solver itself: kept when the second level starts and the run is within
+		// the model budget (the screening only selects inputs; the kept ones are run again and judged like every other run)
+		kept, tries := 0, 0
+		seenIn := map[string]bool{}
+		for kept < 14*c.scale && tries < 250*c.scale {
+			tries++
+			p := tak.New(s.cfg)
+			for x, plies := 0, c.r.Intn(6); x < plies; x++ {
+				legal := legalMoves(p)
+				if len(legal) == 0 {
+					break
+				}
+				q, err := p.Move(legal[c.r.Intn(len(legal))])
+				if err != nil {
+					break
+				}
+				if over, _ := q.GameOver(); over {
+					break
+				}
+				p = q
+			}
+			j := &c06job{kind: "pn", root: p, g: graphs[i], gi: i, pn2: true, modelOK: true}
+			switch c.r.Intn(6) {
+			case 0:
+				j.maxNodes = 0
+			case 1:
+				j.maxNodes = uint64(2000 + c.r.Intn(3000))
+			case 2:
+				j.maxNodes = uint64(5000 + c.r.Intn(30000))
+			case 3:
+				j.maxNodes = uint64(100000 + c.r.Intn(400000))
+			case 4:
+				j.maxNodes = uint64(2050 + c.r.Intn(300)) // first-level limit (half of it) just above the threshold
+			default:
+				j.maxNodes = 5000000
+			}
+			j.preserve = c.r.Intn(2) == 0
+			if c.r.Intn(3) == 0 {
+				j.maxDepth = 3 + c.r.Intn(8)
+			}
+			if seenIn[j.input()] {
+				continue
+			}
+			seenIn[j.input()] = true
+			calls, searched, expanded := c06pn2Screen(j)
+			if calls == 0 || searched > c06MaxModelSearched || expanded > 10*c06MaxModelExpanded {
+				continue
+			}
+			kept++
+			second = append(second, j)
+			c.stat("pn2_early_root_runs", 1)
+			c.stat(fmt.Sprintf("pn2_early_root_runs_move_%d", p.MoveNumber()), 1)
+		}
+		c.stat("pn2_early_root_candidates", int64(tries))
+	}
+	// larger boards with the default reserves (one-sided oracle): ~30 children per node, so the threshold is passed after
+	// a few dozen expansions and the rest of the node budget is spent in second-level searches with real limits; most
+	// of these runs end `unknown`, what is compared are the numbers and counters.  The first-level limit must stay small:
+	// MaxNodes above 2*Live^2 means second-level searches WITHOUT a limit, which do not come back on these boards.
+	for kept, tries := 0, 0; kept < 40*c.scale && tries < 400*c.scale; tries++ {
+		size := 4 + c.r.Intn(2)
+		ps, _ := randomGame(c.r, tak.Config{Size: size}, 2+c.r.Intn(16), []int{4, 2, 4, -1}[c.r.Intn(4)], false)
+		p := ps[len(ps)-1]
+		if over, _ := p.GameOver(); over {
+			continue
+		}
+		j := &c06job{kind: "pn", root: p, gi: -1, pn2: true, modelOK: true}
+		switch c.r.Intn(3) {
+		case 0:
+			j.maxNodes = uint64(2020 + c.r.Intn(400))
+		case 1:
+			j.maxNodes = uint64(2400 + c.r.Intn(4000))
+		default:
+			j.maxNodes = uint64(6000 + c.r.Intn(14000))
+		}
+		j.preserve = c.r.Intn(2) == 0
+		if c.r.Intn(3) == 0 {
+			j.maxDepth = 2 + c.r.Intn(6)
+		}
+		calls, searched, expanded := c06pn2Screen(j)
+		if calls == 0 || searched > c06MaxModelSearched/4 || expanded > c06MaxModelExpanded {
+			continue
+		}
+		kept++
+		second = append(second, j)
+		c.stat("pn2_big_board_runs", 1)
+		c.stat(fmt.Sprintf("pn2_big_board_runs_size_%d", size), 1)
+	}
+	c.stat("pn2_screen_ms", int64(time.Since(tScreen)/time.Millisecond))
+	c06runJobs(c, second)
 }
 
 func c06runJobs(c *ctx, jobs []*c06job) {
